@@ -32,6 +32,10 @@
    outcomes are allowed (tb), as in EstimatorNode.  core.run(until = H) processes the events
    strictly before H (simpy schedules the stop event with urgent priority); a wake-up at exactly
    H (possible only through double rounding of the accumulated time) is a tie as well.
+   Ties repeat on every period when (period - 1 ms) is a multiple of dt_sim, and every both-ways
+   tie doubles the number of histories: TieBudget bounds the number of ties per run explored both
+   ways (later ties: publish, which is what IEEE doubles do for the sums that occur); the trace
+   specification sets it to infinity, i.e. accepts either outcome at every tie.
 
    The true state is abstracted to  age = the total time it has been integrated over  and
    ver = the number of simulate calls that produced it (the trace binds ver to the actual
